@@ -63,6 +63,20 @@ CLAIMS = {
                 'and other fields in transit (C12); match evaluation (C07).',
         'design': 'DESIGN.md section 3, C05',
     },
+    'C09': {
+        'technique': 'static analysis: path-sensitive typestate over the policy gate and the pending-reply '
+                     'functions (condition atoms remembered per path), must-pass-through dataflow, '
+                     'who-may-call scans, acquire/undo pairing on failure exits',
+        'text': 'Decides that a reply slot is opened only by the gate, as its last step, for an addressed '
+                'METHOD_CALL with non-NULL sender/addressee equal to the proposed recipient after both policy '
+                'checks passed, never for a no-reply call or as a duplicate; that a reply consumes a slot only '
+                'when serial, receiver and sender all matched, under an undo hook, and that this verdict feeds '
+                'both policy checks; that expiry/disconnect stage exactly one NoReply and release the slot on the '
+                'same path; and that no failure exit leaves a half-open slot.',
+        'note': NOT_DECIDED_COMMON + 'Not decided: timing of expiry; whether a given configuration denies '
+                'unrequested replies (C06); serial reuse across 32-bit wrap-around.',
+        'design': 'DESIGN.md section 3, C09',
+    },
 }
 
 NOT_APPLICABLE = {
